@@ -1114,7 +1114,9 @@ def run(ctx):
                 'renames nodes of its argument (native and domain-level, all adapters); non-trivial = graph with >= 2 nodes.  '
                 'Verifiers are built as GraphVerifier(...) or through GraphGenerationParams (list / tuple / default / EMPTY '
                 'rule collection); a quarter of all runs with the GOLEM logger at DEBUG; config same-function = two or three user '
-                'rules of one verifier unpacking to ONE underlying function (partials / bound methods), both orders')
+                'rules of one verifier unpacking to ONE underlying function (partials / bound methods), both orders; config '
+                'adapter-variant = user adapter subclasses / DirectAdapter with user classes, verifier or adapter pickled or '
+                'deep-copied before use')
     ctx.trusted_extra = [
         'NetworkX: DiGraph / Graph adjacency and isolates are modelled by their documented meaning (degree 0), the '
         'breadth-first search of is_connected by a hand-copied literal model (Graph/RulesBfs.v); both are tied to the '
